@@ -146,6 +146,9 @@ def consumers(rng, read_error=None):
 
     r['stream'], r['buf'] = gen.gen_stream(rng)
 
+    if rng.chance(0.1):
+        r['shadow'] = rng.below(50)
+
     cs = [r, {'id': 'D1', 'kind': 'dom_load', 'file': 'f1',
               'via': 'from_bytes'},
           {'id': 'D2', 'kind': 'dom_load', 'file': 'f1',
